@@ -477,6 +477,9 @@ def stepEv (env : Env) (e : Expr) (impl : String) : String :=
   else verdict (showRes (eval hw .fixed env e)) impl
 
 def stepC10 (env : Env) (e : Expr) (impl : String) : String :=
+  if impl == "panic" then "JUDGE C10 folding or evaluating the expression panicked"
+  else if impl == "abort" then "JUDGE C10 folding or evaluating the expression aborted the process"
+  else
   match impl.splitOn " | " with
   | [u, f, fe] =>
     let mu := showRes (eval hw .fixed env e)
@@ -494,6 +497,7 @@ def stepC10 (env : Env) (e : Expr) (impl : String) : String :=
 /-- value of the folded program (through `parse` and the Engine) against the value of the
 unfolded expression in the model -/
 def stepC10t (env : Env) (e : Expr) (impl : String) : String :=
+  if impl == "panic" || impl == "abort" then s!"JUDGE C10 the folded program {impl}s" else
   let mu := showRes (eval hw .fixed env e)
   let mf := showRes (eval hw .fixed env (fold hw true e))
   if impl == mu then "ok"
